@@ -44,16 +44,16 @@ func newMuxRig(cfg rigCfg) *muxRig {
 	if cfg.inactivity == 0 {
 		cfg.inactivity = 1000 * time.Hour
 	}
-	mk := func(id uint32, v Valve) *Session {
+	mk := func(id uint32, v Valve, singleplex bool) *Session {
 		o, err := MakeObfuscator(cfg.method, rigKey)
 		if err != nil {
 			panic(err)
 		}
-		return MakeSession(id, SessionConfig{Obfuscator: o, Valve: v, Unordered: cfg.unordered, Singleplex: cfg.singleplex,
+		return MakeSession(id, SessionConfig{Obfuscator: o, Valve: v, Unordered: cfg.unordered, Singleplex: singleplex,
 			MsgOnWireSizeLimit: limit, InactivityTimeout: cfg.inactivity})
 	}
-	r.cli = mk(1, cfg.cliValve)
-	r.srv = mk(1, cfg.srvValve)
+	r.cli = mk(1, cfg.cliValve, cfg.singleplex)
+	r.srv = mk(1, cfg.srvValve, false) // as in production: only the client knows about singleplexing
 	for i := 0; i < cfg.conns; i++ {
 		r.addPair()
 	}
